@@ -14,6 +14,8 @@ from openpyxl.worksheet.formula import ArrayFormula
 
 def enc(v):
     """python value -> JSON-able"""
+    if isinstance(v, TextCell):
+        return {'$text': str(v)}
     if v is None or isinstance(v, (bool, int, str)):
         return v
     if isinstance(v, float):
@@ -30,6 +32,8 @@ def enc(v):
         return {'$td': v.total_seconds()}
     if isinstance(v, ArrayFormula):
         return {'$af': [v.ref, v.text]}
+    if isinstance(v, TextCell):
+        return {'$text': str(v)}
     if isinstance(v, (list, tuple)):
         return [enc(i) for i in v]
     if isinstance(v, dict):
@@ -39,6 +43,10 @@ def enc(v):
     if type(v).__name__ == 'EmptyCell':
         return {'$blank': 1}
     return {'$repr': repr(v)[:200], 'type': type(v).__name__}
+
+
+class TextCell(str):
+    """a text stored in a cell AS TEXT whatever it looks like (typed with a leading apostrophe): also '=A1+1' is a constant then"""
 
 
 def dec(v):
@@ -57,6 +65,8 @@ def dec(v):
             return float(v['$f'])
         if '$af' in v:
             return ArrayFormula(v['$af'][0], v['$af'][1])
+        if '$text' in v:
+            return TextCell(v['$text'])
         return {k: dec(x) for k, x in v.items()}
     return v
 
@@ -92,7 +102,14 @@ def write(spec, path):
         else:
             ws = wb.create_sheet(sh['title'])
         for addr, v in sh.get('cells', {}).items():
-            ws[addr] = dec(v)
+            v = dec(v)
+            if isinstance(v, TextCell):
+                c_ = ws[addr]
+                c_.value = str(v)
+                c_.data_type = 's'          # stored as a text, whatever its first character
+                c_.quotePrefix = True
+            else:
+                ws[addr] = v
         if sh.get('state'):
             ws.sheet_state = sh['state']          # 'hidden' / 'veryHidden': still a worksheet of the workbook
         for addr in sh.get('touched', ()):
